@@ -18,6 +18,11 @@ class AnalysisError(Exception):
   construct, self-test failure).  Never a property violation: exit code 2."""
 
 
+class RuleAbort(Exception):
+  """A rule recorded a violation (an expected construct is missing) and
+  cannot continue; the remaining rules of the property still run."""
+
+
 # --------------------------------------------------------------------------
 # AST helpers
 
@@ -578,6 +583,7 @@ class Report(object):
     self.explanations = []
     self.exhaustive_tables = []
     self.selftest = None
+    self.analysis_errors = []
 
   # -- rule bookkeeping
   def rule(self, rid, text):
@@ -627,11 +633,35 @@ class Report(object):
     })
 
   def expect_instances(self, rule, found, expected_min, what):
+    """The constructs a rule is about must exist.  On the pinned tree the
+    counts were confirmed by hand; a tree on which they are missing has lost
+    the mechanism itself (e.g. the payload write, the release, the record
+    call), which is reported as a violation of the rule, and the rule stops."""
     if found < expected_min:
-      raise AnalysisError(
-          'rule %s matched %d %s, expected at least %d (confirmed by hand on '
-          'the pinned tree): matcher or anchor broken' %
-          (rule, found, what, expected_min))
+      self.violation(
+          rule, 'missing', '%s (found %d, need %d)' % (what, found,
+                                                       expected_min),
+          'openhtf', 'rule %s is about %s: %d found, at least %d exist on the '
+          'pinned tree; the construct that implements this part of the '
+          'property is gone (or was rewritten beyond recognition)' %
+          (rule, what, found, expected_min))
+      raise RuleAbort(rule)
+
+  def guard(self, fn, *args, **kwargs):
+    """Runs one rule; a rule that aborts (missing construct) or breaks
+    (unsupported construct) does not stop the other rules."""
+    try:
+      return fn(*args, **kwargs)
+    except RuleAbort:
+      return None
+    except AnalysisError as e:
+      self.analysis_errors.append(str(e))
+      return None
+    except Exception as e:  # pylint: disable=broad-except
+      import traceback  # pylint: disable=g-import-not-at-top
+      self.analysis_errors.append('internal exception in %s: %r\n%s' % (
+          getattr(fn, '__name__', fn), e, traceback.format_exc(limit=4)))
+      return None
 
   def table(self, rule, n_valuations, exhaustive=True):
     self.valuations += n_valuations
@@ -742,6 +772,9 @@ def finish(report, decides, does_not_decide):
     print('KNOWN-FINDING: property=%s rule=%s %s -- %s' %
           (report.prop, v['rule'], v['key'], k.get('what_fails', '')))
   code = EXIT_OK
+  for e in report.analysis_errors:
+    print('ANALYSIS-ERROR property=%s %s' % (report.prop, e))
+    code = EXIT_BROKEN
   for i, v in enumerate(unlisted):
     rp = os.path.join(ev_dir, 'replay', '%s-%s-%d.json' %
                       (report.prop, v['rule'], i))
